@@ -306,13 +306,10 @@ class _VersionIndependentUnmarshaller:
         return self.r_ref(float(unpack("<d", self.fp.read(8))[0]), save_ref)
 
     def t_complex(self, save_ref, bytes_for_s=False):
-        def unpack_pre_24() -> float:
+        # marshal.c writes each part as a length byte followed by its repr(),
+        # in every version that has this text form.
+        def get_float() -> float:
             return float(self.fp.read(unpack("B", self.fp.read(1))[0]))
-
-        def unpack_newer() -> float:
-            return float(self.fp.read(unpack("<i", self.fp.read(4))[0]))
-
-        get_float = unpack_pre_24 if self.magic_int <= 62061 else unpack_newer
 
         real = get_float()
         imag = get_float()
